@@ -163,8 +163,25 @@ fn run_pairs<W: World>(spec: &ShardSpec, cur: Option<&str>, fam_alpha: &str, ren
 }
 
 /// Replay one joined pair history (A ops, separator, B ops).
+/// A history without a separator comes from building the state family: replay it on one world.
+pub fn replay_plain<W: World>(spec: &ShardSpec, h: &[Op]) -> VResult<()> {
+    reset_exec();
+    let cfg = spec.cfg();
+    let mut w = W::create(&cfg)?;
+    for &o in h {
+        if let Err(v) = w.apply(o).and_then(|_| w.audit(true)) {
+            std::mem::forget(w);
+            return Err(v);
+        }
+    }
+    w.finish()
+}
+
 fn replay_pair<W: World>(spec: &ShardSpec, joined: &[Op], oracle: &PairFn<W>) -> VResult<()> {
-    let pos = joined.iter().position(|o| o.k == OpK::Clear && o.key == u32::MAX).ok_or_else(|| Viol::new("machinery", "no separator in pair history"))?;
+    let pos = match joined.iter().position(|o| o.k == OpK::Clear && o.key == u32::MAX) {
+        Some(p) => p,
+        None => return replay_plain::<W>(spec, joined),
+    };
     let (ha, hb) = (&joined[..pos], &joined[pos + 1..]);
     let code = joined[pos].arg;
     let variant = (code & 0xFF) as usize;
@@ -518,7 +535,10 @@ fn run_singles<W: World>(spec: &ShardSpec, cur: Option<&str>, fam_alpha: &str, v
 }
 
 fn replay_single<W: World>(spec: &ShardSpec, hh: &[Op], oracle: &SingleFn<W>) -> VResult<()> {
-    let pos = hh.iter().position(|o| o.k == OpK::Clear && o.key == u32::MAX).ok_or_else(|| Viol::new("machinery", "no separator"))?;
+    let pos = match hh.iter().position(|o| o.k == OpK::Clear && o.key == u32::MAX) {
+        Some(p) => p,
+        None => return replay_plain::<W>(spec, hh),
+    };
     let variant = hh[pos].arg as usize;
     reset_exec();
     let mut w = build::<W>(&spec.cfg(), &hh[..pos])?;
